@@ -309,19 +309,16 @@ func (a Amount) String() string {
 	if a.exp > 1000 {
 		return "NA"
 	}
-	p := intPow(10, a.exp)
-	v := a.value
+	p := uint64(intPow(10, a.exp))
+	// the magnitude is taken as an unsigned number: negating the most
+	// negative value is not possible in int64
 	s := ""
-	if v < 0 {
+	u := uint64(a.value)
+	if a.value < 0 {
 		s = "-"
-		v = -v
+		u = uint64(-(a.value + 1)) + 1
 	}
-	v1 := v / p
-	v2 := v - (v1 * p)
-	//if v2 < 0 {
-	//	v2 = -v2
-	//}
-	return fmt.Sprintf("%s%d.%0*d", s, v1, a.exp, v2)
+	return fmt.Sprintf("%s%d.%0*d", s, u/p, a.exp, u%p)
 }
 
 // MinimalString provides the amount without any tailing 0s or '.'
